@@ -261,6 +261,8 @@ Proof.
     + cbn [orb]. lia.
 Qed.
 
+Lemma if_same0 (b : bool) : (if b then 0%Z else 0%Z) = 0%Z.
+Proof. destruct b; reflexivity. Qed.
 Definition tzl (x : mbi) : Z := zlen (tz_export (m_tz x)).
 Definition hz (c : mbi_class) (m : mixin) (v : Z) : Z := if has c m then v else 0%Z.
 Lemma total_len_expand c x : nodupb (c_mixins c) = true -> m_table x = None ->
@@ -272,7 +274,7 @@ Lemma total_len_expand c x : nodupb (c_mixins c) = true -> m_table x = None ->
 Proof.
   intros ND HT. unfold total_len. rewrite (sumz_nodup _ _ ND). unfold hz, has, hasl, tzl.
   cbn [all_mixins map sumz fold_right mix_len]. rewrite HT.
-  repeat match goal with |- context [existsb (mixin_eqb ?m) (c_mixins c)] => destruct (existsb (mixin_eqb m) (c_mixins c)) end; lia.
+  rewrite ?if_same0. ring.
 Qed.
 Lemma total_len_for_cert_expand c x : nodupb (c_mixins c) = true -> m_table x = None ->
   total_len_for_cert c x =
@@ -282,11 +284,11 @@ Lemma total_len_for_cert_expand c x : nodupb (c_mixins c) = true -> m_table x = 
 Proof.
   intros ND HT. unfold total_len_for_cert. rewrite (sumz_nodup _ _ ND). unfold hz, has, hasl, tzl.
   cbn [all_mixins map sumz fold_right mix_len legacy_len]. rewrite HT.
-  repeat match goal with |- context [existsb (mixin_eqb ?m) (c_mixins c)] => destruct (existsb (mixin_eqb m) (c_mixins c)) end; lia.
+  rewrite ?if_same0. ring.
 Qed.
 Lemma app_len_expand c x : nodupb (c_mixins c) = true -> m_table x = None -> app_len c x = hz c MixinApp (zlen (m_app x)).
 Proof.
   intros ND HT. unfold app_len. rewrite (sumz_nodup _ _ ND). unfold hz, has, hasl.
   cbn [all_mixins map sumz fold_right mix_app_len]. rewrite HT.
-  repeat match goal with |- context [existsb (mixin_eqb ?m) (c_mixins c)] => destruct (existsb (mixin_eqb m) (c_mixins c)) end; lia.
+  rewrite ?if_same0. ring.
 Qed.
